@@ -1,37 +1,97 @@
 import Hls.Model.Line
 /-!
 # Which arm of `Tag::try_from` a line takes (over the table regenerated from the source)
+
+One lemma per tag prefix: a line that starts with the prefix goes to that tag's parser (no earlier
+arm of the generated table matches it), and `tagParser` for that arm is the tag's `parse`.
+The proofs evaluate the table, so they are re-checked whenever the source changes it.
 -/
 namespace Hls
 
 theorem classify1_ext (s : Str) (h : startsWith s "#EXT".toList = true) : classify1 s = dispatch s := by
   unfold classify1; rw [if_pos h]
 
-theorem dispatchIn_skip (k p : String) (ex : Bool) (rest : List (String × String × Bool)) (s : Str)
-    (h : armMatches ex p s = false) : dispatchIn ((k, p, ex) :: rest) s = dispatchIn rest s := by
-  simp [dispatchIn, h]
-
-theorem dispatchIn_hit (k p : String) (ex : Bool) (rest : List (String × String × Bool)) (s : Str)
-    (h : armMatches ex p s = true) : dispatchIn ((k, p, ex) :: rest) s = tagParser k s := by
-  simp [dispatchIn, h]
-
-/-- walk down the generated table: skip the arms that do not match, stop at the one that does -/
-syntax "dispatch_walk" : tactic
+/-- evaluate the generated table on a line that starts with a literal prefix -/
+syntax "dispatch_eval" : tactic
 macro_rules
-  | `(tactic| dispatch_walk) => `(tactic|
+  | `(tactic| dispatch_eval) => `(tactic|
       (unfold dispatch Generated.dispatchOrder
-       repeat (first
-         | rw [dispatchIn_hit _ _ _ _ _ (by simp [armMatches, startsWith, List.isPrefixOf])]
-         | rw [dispatchIn_skip _ _ _ _ _ (by simp [armMatches, startsWith, List.isPrefixOf])])))
+       simp [dispatchIn, armMatches, startsWith, List.isPrefixOf, tagParser, tagParsers, lookupParser]))
 
-theorem dispatch_version (r : Str) : dispatch (pfxVersion ++ r) = tagParser "ExtXVersion" (pfxVersion ++ r) := by
-  unfold pfxVersion; dispatch_walk
-theorem dispatch_map (r : Str) : dispatch (pfxMap ++ r) = tagParser "ExtXMap" (pfxMap ++ r) := by
-  unfold pfxMap; dispatch_walk
-theorem dispatch_start (r : Str) : dispatch (pfxStart ++ r) = tagParser "ExtXStart" (pfxStart ++ r) := by
-  unfold pfxStart; dispatch_walk
+theorem dispatch_version (r : Str) :
+    dispatch (pfxVersion ++ r) = (fun s => (ExtXVersion.parse s).map .version) (pfxVersion ++ r) := by
+  unfold pfxVersion; dispatch_eval
 
-theorem tagParser_map (s : Str) : tagParser "ExtXMap" s = (ExtXMap.parse s).map .map := by
-  simp [tagParser, tagParsers, lookupParser]
+theorem dispatch_inf (r : Str) :
+    dispatch (pfxInf ++ r) = (fun s => (ExtInf.parse s).map .inf) (pfxInf ++ r) := by
+  unfold pfxInf; dispatch_eval
+
+theorem dispatch_byteRange (r : Str) :
+    dispatch (pfxByteRange ++ r) = (fun s => (ExtXByteRange.parse s).map .byteRange) (pfxByteRange ++ r) := by
+  unfold pfxByteRange; dispatch_eval
+
+theorem dispatch_discontinuitySequence (r : Str) :
+    dispatch (pfxDiscontinuitySequence ++ r) = (fun s => (ExtXDiscontinuitySequence.parse s).map .discontinuitySequence) (pfxDiscontinuitySequence ++ r) := by
+  unfold pfxDiscontinuitySequence; dispatch_eval
+
+theorem dispatch_key (r : Str) :
+    dispatch (pfxKey ++ r) = (fun s => (ExtXKey.parse s).map .key) (pfxKey ++ r) := by
+  unfold pfxKey; dispatch_eval
+
+theorem dispatch_map (r : Str) :
+    dispatch (pfxMap ++ r) = (fun s => (ExtXMap.parse s).map .map) (pfxMap ++ r) := by
+  unfold pfxMap; dispatch_eval
+
+theorem dispatch_programDateTime (r : Str) :
+    dispatch (pfxProgramDateTime ++ r) = (fun s => (ExtXProgramDateTime.parse s).map .programDateTime) (pfxProgramDateTime ++ r) := by
+  unfold pfxProgramDateTime; dispatch_eval
+
+theorem dispatch_targetDuration (r : Str) :
+    dispatch (pfxTargetDuration ++ r) = (fun s => (ExtXTargetDuration.parse s).map .targetDuration) (pfxTargetDuration ++ r) := by
+  unfold pfxTargetDuration; dispatch_eval
+
+theorem dispatch_dateRange (r : Str) :
+    dispatch (pfxDateRange ++ r) = (fun s => (ExtXDateRange.parse s).map .dateRange) (pfxDateRange ++ r) := by
+  unfold pfxDateRange; dispatch_eval
+
+theorem dispatch_mediaSequence (r : Str) :
+    dispatch (pfxMediaSequence ++ r) = (fun s => (ExtXMediaSequence.parse s).map .mediaSequence) (pfxMediaSequence ++ r) := by
+  unfold pfxMediaSequence; dispatch_eval
+
+theorem dispatch_media (r : Str) :
+    dispatch (pfxMedia ++ r) = (fun s => (ExtXMedia.parse s).map .media) (pfxMedia ++ r) := by
+  unfold pfxMedia; dispatch_eval
+
+theorem dispatch_iFrameStreamInf (r : Str) :
+    dispatch (pfxIFrameStreamInf ++ r) = (fun s => (VariantStream.parse s).map .variant) (pfxIFrameStreamInf ++ r) := by
+  unfold pfxIFrameStreamInf; dispatch_eval
+
+theorem dispatch_sessionData (r : Str) :
+    dispatch (pfxSessionData ++ r) = (fun s => (ExtXSessionData.parse s).map .sessionData) (pfxSessionData ++ r) := by
+  unfold pfxSessionData; dispatch_eval
+
+theorem dispatch_sessionKey (r : Str) :
+    dispatch (pfxSessionKey ++ r) = (fun s => (ExtXSessionKey.parse s).map .sessionKey) (pfxSessionKey ++ r) := by
+  unfold pfxSessionKey; dispatch_eval
+
+theorem dispatch_start (r : Str) :
+    dispatch (pfxStart ++ r) = (fun s => (ExtXStart.parse s).map .start) (pfxStart ++ r) := by
+  unfold pfxStart; dispatch_eval
+
+theorem dispatch_discontinuity : dispatch pfxDiscontinuity = .ok .discontinuity := by
+  unfold pfxDiscontinuity; dispatch_eval
+  all_goals (first | rfl | decide)
+
+theorem dispatch_endList : dispatch pfxEndList = .ok .endList := by
+  unfold pfxEndList; dispatch_eval
+  all_goals (first | rfl | decide)
+
+theorem dispatch_iFramesOnly : dispatch pfxIFramesOnly = .ok .iFramesOnly := by
+  unfold pfxIFramesOnly; dispatch_eval
+  all_goals (first | rfl | decide)
+
+theorem dispatch_independentSegments : dispatch pfxIndependentSegments = .ok .independentSegments := by
+  unfold pfxIndependentSegments; dispatch_eval
+  all_goals (first | rfl | decide)
 
 end Hls
